@@ -33,6 +33,34 @@ def canary_request(method, path, field, decor_name, canary):
     return ser(method, target, hs, body), ser(method, ptarget, plain, pbody)
 
 
+def unreadable_overrides(c, rng, frame):
+    import os
+    for kind, target in (("proc-mem", "/proc/self/mem"), ("directory", "."), ("dangling", "no-such-target"), ("fifo-like-dev", "/dev/null")):
+        t = treegen.generate(rng.fork("unreadable", kind), depth=0, n_files=2, symlinks=False, plant_secrets=False, tag="c05-unreadable", root_index=False, root_404=False, root_name="root")
+        srv = None
+        try:
+            for name in ("404.html", "index.html", "style.css", "script.js", "favicon.svg"):
+                p = t.abs("/" + name)
+                if os.path.lexists(p):
+                    os.unlink(p)
+                os.symlink(target, p)
+            srv = server.Server(t.root, threads=2)
+            if not srv.started:
+                c.inconc("server did not start")
+                continue
+            for m in ("GET", "HEAD", "OPTIONS"):
+                for path in ("/", "/style.css", "/script.js", "/favicon.svg", "/missing-file", "/404.html", "/index.html"):
+                    raw = ("%s %s HTTP/1.1\r\nHost: x\r\n\r\n" % (m, path)).encode()
+                    data, end = srv.request(raw, timeout=10)
+                    if data:
+                        frame(raw, {"route": "unreadable-override:" + kind, "el": "none", "kind": "valid"}, data, "binary")
+            c.cls("unreadable-override", kind)
+        finally:
+            if srv:
+                srv.cleanup()
+            t.cleanup()
+
+
 def long_stall(t, rng, result):
     """runs in a background thread for the whole campaign: a client requests a 24 MiB file, reads nothing for 18 s (a paused
     download), then reads everything; result = dict filled with what arrived"""
@@ -229,6 +257,10 @@ def run(c):
         # ---- (3b) delivery over a real socket that accepts the response in pieces: a reader with a 2 KiB receive
         # buffer that pauses between reads, for bodies of 64 KiB .. 4 MiB (whole file, single range, several ranges)
         slow_readers(c, t, rng)
+
+        # ---- (1b) framing when a root override file exists but cannot be read (a link to /proc/self/mem reads as EIO even for
+        # root; a link to a directory; a dangling link): whatever the status, status line and framing must be well-formed
+        unreadable_overrides(c, rng, frame)
 
         # ---- (2) reflection
         work = []
